@@ -153,10 +153,11 @@ def text_class(exported):
                 continue
             base = name + (m.group(4) or "")
             key = m.group(3) or "plain"
-            copies.setdefault(base, {}).setdefault(key, False)
+            copies.setdefault(base, {}).setdefault(key, [])
             if m.group(1):
-                copies[base][key] = True
-    if cyc and any(len(set(v.values())) > 1 and len(v) > 1 for v in copies.values()):
+                copies[base][key].append(m.group(1))
+    # the copies of one atom do not carry the same probabilistic clauses (one has a fact / AD head / probabilistic rule the other lacks)
+    if cyc and any(len(v) > 1 and len({tuple(sorted(x)) for x in v.values()}) > 1 for v in copies.values()):
         tags.append("cycle-broken-copy-without-its-fact")
     return tags
 
